@@ -254,18 +254,28 @@ static void link_holes(ClipperLib::PolyNode* node, double scaling, Array<Polygon
             }
         }
 
+        ClipperLib::IntPoint p_new(xnew, hole_min->Y);
         if (p_closest == p_end) {
-            if (error_logger)
-                fprintf(error_logger, "[GDSTK] Unable to link hole in boolean operation.\n");
-            error_code = ErrorCode::BooleanError;
-        } else {
-            ClipperLib::IntPoint p_new(xnew, hole_min->Y);
-            if (p_new.X != p_closest->X || p_new.Y != p_closest->Y)
-                p_closest = contour->insert(p_closest, p_new);
-            p_closest = contour->insert(p_closest, holes[i].path->begin(), hole_min + 1);
-            p_closest = contour->insert(p_closest, hole_min, holes[i].path->end());
-            contour->insert(p_closest, p_new);
+            // Rounding can leave the smallest vertex of a hole on or just outside the contour,
+            // so that no edge is found to its left.  A slit of zero width changes neither the
+            // covered region nor the area wherever it runs: bridge to the nearest contour
+            // vertex instead of dropping the hole.
+            double d_min = 0;
+            for (p_next = contour->begin(); p_next != p_end; p_next++) {
+                const double dx = (double)(p_next->X - hole_min->X);
+                const double dy = (double)(p_next->Y - hole_min->Y);
+                if (p_closest == p_end || dx * dx + dy * dy < d_min) {
+                    d_min = dx * dx + dy * dy;
+                    p_closest = p_next;
+                }
+            }
+            p_new = *p_closest;
         }
+        if (p_new.X != p_closest->X || p_new.Y != p_closest->Y)
+            p_closest = contour->insert(p_closest, p_new);
+        p_closest = contour->insert(p_closest, holes[i].path->begin(), hole_min + 1);
+        p_closest = contour->insert(p_closest, hole_min, holes[i].path->end());
+        contour->insert(p_closest, p_new);
     }
     holes.clear();
 }
